@@ -6,7 +6,7 @@
 namespace c05 {
 
 enum St : uint8_t { S_SPAWN, S_PAUSE, S_RESOLVE_DISCARD, S_RESOLVE_AWAIT, S_RESOLVE_KEEP, S_AWAIT, S_LOCK, S_UNLOCK_DISCARD, S_UNLOCK_AWAIT, S_PUSH, S_POP, S_START_NESTED, S_NESTED_CALL, S_PARK, S_UNPARK, S_POOL_AWAIT, S_POOL_STOP, S_COUNT };
-struct Step { uint8_t kind, arg; };
+struct Step { uint8_t kind, arg; uint8_t unwinding = 0; };   // unwinding (operations from ordinary code): performed by a destructor while an exception propagates
 constexpr int NF = 4, MAXC = 8;
 struct Prog { std::vector<std::vector<Step>> co; std::vector<Step> main_ops; };
 
@@ -27,6 +27,7 @@ inline Prog decode(hz::Reader &r) {
     unsigned m = 1 + r.mod(4);
     for (unsigned i = 0; i < m; i++) { Step x; unsigned k = r.mod(3); x.kind = k == 0 ? S_SPAWN : k == 1 ? S_RESOLVE_DISCARD : S_PUSH; x.arg = (uint8_t)r.mod(NF); p.main_ops.push_back(x); }
     p.main_ops[0].kind = S_SPAWN;
+    for (auto &x : p.main_ops) x.unwinding = (uint8_t)(r.mod(3) == 1);     // trailing bytes
     return p;
 }
 static const char *sn[] = {"spawn+detach", "pause", "resolve(discard)", "co_await resolve", "resolve(kept, released later)", "await future", "lock", "unlock(discard)", "co_await unlock", "push", "pop",
@@ -38,7 +39,7 @@ static const char *sn[] = {"spawn+detach", "pause", "resolve(discard)", "co_awai
 inline std::string describe(const Prog &p) {
     hz::Desc d; d << (unsigned)p.co.size() << " coroutines;";
     for (size_t i = 0; i < p.co.size(); i++) { d << " C" << (unsigned)i << ":"; for (auto &s : p.co[i]) { d << " " << sn[s.kind]; if (s.kind >= S_RESOLVE_DISCARD && s.kind <= S_AWAIT) d << "#" << (unsigned)s.arg; } d << ";"; }
-    d << " from ordinary code:"; for (auto &s : p.main_ops) { d << " " << sn[s.kind]; if (s.kind == S_RESOLVE_DISCARD) d << "#" << (unsigned)s.arg; }
+    d << " from ordinary code:"; for (auto &s : p.main_ops) { d << " " << sn[s.kind]; if (s.kind == S_RESOLVE_DISCARD) d << "#" << (unsigned)s.arg; if (s.unwinding) d << "[by a destructor during stack unwinding]"; }
     d << "; then settle everything";
     return d.s;
 }
@@ -291,11 +292,19 @@ inline void run(hz::Reader &r) {
         for (int j = 0; j < NF; j++) { w->fut[j].reset(new cocls::future<int>()); w->prom[j] = w->fut[j]->get_promise(); }
         Model &m = w->m;
         for (auto &s : p.main_ops) {
-            switch (s.kind) {
-                case S_SPAWN: spawn_from(w.get()); break;
-                case S_RESOLVE_DISCARD: w->main_release(w->model_resolve(s.arg % NF)); w->prom[s.arg % NF](1); break;
-                default: w->main_release(w->model_push()); w->q.push(5); break;
-            }
+            auto perform = [&] {
+                switch (s.kind) {
+                    case S_SPAWN: spawn_from(w.get()); break;
+                    case S_RESOLVE_DISCARD: w->main_release(w->model_resolve(s.arg % NF)); w->prom[s.arg % NF](1); break;
+                    default: w->main_release(w->model_push()); w->q.push(5); break;
+                }
+            };
+            if (s.unwinding) {
+                // the operation is performed by the destructor of a local while an exception propagates through ordinary code
+                // (a guard object resolving / pushing / starting on scope exit): everything it readies still runs before it returns
+                struct OnExit { decltype(perform) &fn; ~OnExit() { fn(); } };
+                try { OnExit g{perform}; throw val::PlainExc{1}; } catch (const val::PlainExc &) {}
+            } else perform();
             w->check_drained(sn[s.kind]);
         }
         // settle: spawn what is left, satisfy everything somebody may wait for, until every coroutine finished
@@ -327,7 +336,7 @@ namespace hz {
 static const Info I = {
     "C05", 1, 130, 100000, false, true,
     "stateful byte-decoded programs (rapidcheck), single thread: 1..8 scripted coroutines with up to 6 steps each over {spawn+detach child, pause, resolve promise j with the suspend point discarded / co_awaited / kept and released later, "
-    "await future j, mutex lock, unlock discarded / co_awaited, queue push, queue pop, start() of a child that runs nested (finishing at once, or suspending on a private future: control returns to the parent, the child continues from the queue), explicit nested activation, parking on a hand-written awaiter and coro_queue::resume() of a parked handle, co_await on a thread pool whose only worker is occupied and thread_pool::stop() (which cancels, i.e. readies, the coroutines waiting in the pool's queue)}, driven by 1..4 operations from ordinary code (spawn, resolve, push) and then settled until every coroutine finished. Oracle = online comparison with a reference "
+    "await future j, mutex lock, unlock discarded / co_awaited, queue push, queue pop, start() of a child that runs nested (finishing at once, or suspending on a private future: control returns to the parent, the child continues from the queue), explicit nested activation, parking on a hand-written awaiter and coro_queue::resume() of a parked handle, co_await on a thread pool whose only worker is occupied and thread_pool::stop() (which cancels, i.e. readies, the coroutines waiting in the pool's queue)}, driven by 1..4 operations from ordinary code (spawn, resolve, push - optionally performed by a destructor during stack unwinding) and then settled until every coroutine finished. Oracle = online comparison with a reference "
     "model of the ready queue (FIFO of batches; the order inside the batch readied by ONE operation is not asserted): a coroutine may only gain control when the model says the running one suspended/finished and it is in the front batch "
     "(run-to-suspension, FIFO, pause = strict round-robin), co_await on a suspend point transfers to one of its coroutines, queues the others and re-queues the awaiting one last, nobody runs between resolving and releasing a kept suspend point, "
     "and every return to ordinary code finds the model queue empty and coro_queue inactive (full drain); allocation balance 0. Non-trivial = >=3 coroutines and >=1 coroutine readied through a discarded suspend point; distinct = hash(decoded program).",
